@@ -9,6 +9,7 @@ import sys, json, importlib, math, os, warnings, io, contextlib
 
 warnings.filterwarnings("ignore")
 _CLS = {}
+PER_CASE = int(os.environ.get('PVC_NATIVE_CASE_TIMEOUT', '90'))
 
 
 def classes():
@@ -97,11 +98,17 @@ def main():
     elif req['cmd'] == 'check':
         mod = importlib.import_module('pvc.native.' + req['prop'].lower())
         out = []
+        import signal
+        def _alarm(sig, frm): raise TimeoutError("native case exceeded %ds" % PER_CASE)
+        signal.signal(signal.SIGALRM, _alarm)
         for c in req['cases']:
             try:
+                signal.alarm(PER_CASE)
                 with contextlib.redirect_stdout(io.StringIO()):
                     out.append(mod.check(c))
+                signal.alarm(0)
             except Exception as x:
+                signal.alarm(0)
                 import traceback
                 out.append(["CHECKER-EXCEPTION %s: %s %s" % (type(x).__name__, x, traceback.format_exc()[-600:])])
     elif req['cmd'] == 'corpus':
